@@ -22,7 +22,7 @@ PROP = {
     "race": True,
     "driver": "drv_c11",
     "nontrivial": nontrivial,
-    "rule": "persistent GoChannel only: forced overlaps - a Publish (or a Subscribe's replay goroutine) is parked at each of 8 hook points between closed-check, locking, persisting, sending, replaying and registering while a Subscribe / Publish runs - and seeded random programs with 1-3 publishers x 1-4 subscribers (most of them subscribing during or after the publishers) x 1-6 calls x batches, buffers 0-3, consumers that ack or nack. Per-topic hook streams must be traces of M_topic and, where all owed deliveries were acked, the senders that really ran per subscription must equal the model's as multisets; monitor: every subscription got every successfully published message of its topic exactly 1 + (its nacks of it) times. Non-trivial = at least one publish and one registration in the stream.",
+    "rule": "persistent GoChannel only: forced overlaps - a Publish (or a Subscribe's replay goroutine) is parked at each of 10 hook points between closed-check, locking, persisting, sending, dispatching, replaying (also inside the replay loop) and registering while a Subscribe / Publish runs; backlogs of 1300-2100 persisted messages with one subscription arriving while the publisher is still running and one afterwards (top-level monitor only) - and seeded random programs with 1-3 publishers x 1-4 subscribers (most of them subscribing during or after the publishers) x 1-6 calls x batches, buffers 0-3, consumers that ack or nack. Per-topic hook streams must be traces of M_topic and, where all owed deliveries were acked, the senders that really ran per subscription must equal the model's as multisets; monitor: every subscription got every successfully published message of its topic exactly 1 + (its nacks of it) times. Non-trivial = at least one publish and one registration in the stream.",
     "trusted_base": [
         "Lean 4.33.0 kernel; axioms per theorem under theorem_axioms",
         "M_sub (lean/WmModel/GcSub.lean) and M_topic (lean/WmModel/GcTopic.lean) as models of pubsub/gochannel/pubsub.go: atomic steps = lock-delimited "
